@@ -131,8 +131,16 @@ func describeCallInstr(e *Engine, ci ssa.CallInstruction) string {
 func checkRMW(w *World, r *Report, e *Engine) {
 	applyFn := w.Fn("types", "Apply")
 	var swap *ssa.Function
+	attemptOf := func(fn *ssa.Function) *ssa.Function {
+		for _, f := range w.withPkgHelpers(fn) {
+			if len(staticCallsTo(f, applyFn)) > 0 {
+				return f
+			}
+		}
+		return nil
+	}
 	for _, fn := range w.registeredFuncs() {
-		if fnPkgPath(fn) == modPath+"/lib/concurrent" && len(staticCallsTo(fn, applyFn)) > 0 {
+		if fnPkgPath(fn) == modPath+"/lib/concurrent" && attemptOf(fn) != nil {
 			// the one that (transitively) writes Atom.Val
 			reach := w.reachableFrom([]*ssa.Function{fn})
 			for _, a := range w.fieldAccesses(guardedField{"lib/concurrent", "Atom", []string{"Val"}, "Mutex"}) {
@@ -145,6 +153,18 @@ func checkRMW(w *World, r *Report, e *Engine) {
 	if swap == nil {
 		r.undecided("C09.rmw", nil, "swap! implementation", token.NoPos, "no registered builtin in lib/concurrent applies a function and stores Atom.Val")
 		return
+	}
+	// one attempt (read, apply, install) may be a function of its own that the retry loop calls
+	outer := swap
+	swap = attemptOf(outer)
+	var callA *ssa.Call
+	if swap != outer {
+		cs := staticCallsTo(outer, swap)
+		if len(cs) != 1 {
+			r.bad("C09.rmw", outer, "call of the attempt function", outer.Pos(), "expected exactly one call of the function that performs one attempt")
+			return
+		}
+		callA = cs[0]
 	}
 	applies := staticCallsTo(swap, applyFn)
 	if len(applies) != 1 {
@@ -202,10 +222,13 @@ func checkRMW(w *World, r *Report, e *Engine) {
 	r.check(len(st) == 0, "C09.rmw", swap, "update function applied outside any lock", apply.Pos(), "lockset empty", "locks held across the update function: "+st.String())
 	// retry: read, apply and cas inside one loop; failed cas reaches the back-edge; loop polls ctx
 	var loop *natLoop
-	for _, l := range naturalLoops(swap) {
+	for _, l := range naturalLoops(outer) {
 		l := l
 		blocks := loopBlocks(l)
-		if blocks[read.Block()] && blocks[apply.Block()] && blocks[cas.Block()] {
+		if callA == nil && blocks[read.Block()] && blocks[apply.Block()] && blocks[cas.Block()] {
+			loop = &l
+		}
+		if callA != nil && blocks[callA.Block()] {
 			loop = &l
 		}
 	}
@@ -215,16 +238,63 @@ func checkRMW(w *World, r *Report, e *Engine) {
 	blocks := loopBlocks(*loop)
 	// the branch on the cas result: false edge stays in the loop, true edge leaves with the result
 	okBranch := false
-	if iff, ok := cas.Block().Instrs[len(cas.Block().Instrs)-1].(*ssa.If); ok && iff.Cond == ssa.Value(cas) {
+	if iff, ok := cas.Block().Instrs[len(cas.Block().Instrs)-1].(*ssa.If); ok && iff.Cond == ssa.Value(cas) && callA == nil {
 		okBranch = blocks[cas.Block().Succs[1]] && !blocks[cas.Block().Succs[0]]
+	}
+	// attempt in a function of its own: it returns (result, installed, error) with installed = the install's
+	// result and result = the update function's result; the loop branches on installed and returns result
+	var branchBlock *ssa.BasicBlock
+	resIdx, okIdx := -1, -1
+	if callA != nil {
+		for _, rb := range swap.Blocks {
+			if len(rb.Instrs) == 0 {
+				continue
+			}
+			ret, ok := rb.Instrs[len(rb.Instrs)-1].(*ssa.Return)
+			if !ok || !(cas.Block() == rb || cas.Block().Dominates(rb)) {
+				continue
+			}
+			for i, rv := range ret.Results {
+				v := resolveRet(rv)
+				if v == ssa.Value(cas) {
+					okIdx = i
+				}
+				if v == ssa.Value(extractOf(apply, 0)) {
+					resIdx = i
+				}
+			}
+		}
+		if okIdx >= 0 {
+			if ex := extractOf(callA, okIdx); ex != nil {
+				for _, ref := range *ex.Referrers() {
+					if iff, ok := ref.(*ssa.If); ok && blocks[iff.Block()] {
+						branchBlock = iff.Block()
+						okBranch = blocks[branchBlock.Succs[1]] && !blocks[branchBlock.Succs[0]]
+					}
+				}
+			}
+		}
 	}
 	r.check(okBranch, "C09.rmw", swap, "branch on the install result", cas.Pos(), "success leaves the loop, failure retries", "the result of the install step does not decide between returning and retrying")
 	// what swap! returns on success is the value it installed
 	if okBranch {
 		okRet := false
-		t := cas.Block().Succs[0]
-		if ret, ok := t.Instrs[len(t.Instrs)-1].(*ssa.Return); ok && len(ret.Results) == 2 {
-			okRet = resolveRet(ret.Results[0]) == ssa.Value(extractOf(apply, 0)) && isNilConst(resolveRet(ret.Results[1]))
+		var t *ssa.BasicBlock
+		if callA == nil {
+			t = cas.Block().Succs[0]
+		}
+		want := ssa.Value(extractOf(apply, 0))
+		if callA != nil {
+			t = branchBlock.Succs[0]
+			want = nil
+			if resIdx >= 0 {
+				if ex := extractOf(callA, resIdx); ex != nil {
+					want = ex
+				}
+			}
+		}
+		if ret, ok := t.Instrs[len(t.Instrs)-1].(*ssa.Return); ok && len(ret.Results) == 2 && want != nil {
+			okRet = resolveRet(ret.Results[0]) == want && isNilConst(resolveRet(ret.Results[1]))
 		}
 		r.check(okRet, "C09.rmw", swap, "value returned by swap!", cas.Pos(), "the installed result of the update function", "swap! does not return the value it installed (a re-read can observe a later update)")
 	}
@@ -239,7 +309,28 @@ func checkRMW(w *World, r *Report, e *Engine) {
 			}
 		}
 	}
-	r.check(polled, "C09.rmw", swap, "retry loop polls the context", swap.Pos(), "ctx.Err()/ctx.Done() consulted in the loop", "retry loop never consults the context (C07)")
+	r.check(polled, "C09.rmw", outer, "retry loop polls the context", outer.Pos(), "ctx.Err()/ctx.Done() consulted in the loop", "retry loop never consults the context (C07)")
+	// the versioned install is the only thing swap! writes into the atom
+	for _, f := range w.withPkgHelpers(outer) {
+		if f == cas.Call.StaticCallee() || f == read.Call.StaticCallee() {
+			continue
+		}
+		for _, b := range f.Blocks {
+			for _, in := range b.Instrs {
+				ci, ok := in.(ssa.CallInstruction)
+				if !ok || ci == ssa.CallInstruction(cas) || (callA != nil && ci == ssa.CallInstruction(callA)) {
+					continue
+				}
+				sc := ci.Common().StaticCallee()
+				if sc == nil || sc == cas.Call.StaticCallee() || fnPkgPath(sc) != fnPkgPath(swap) {
+					continue
+				}
+				if writesAtomVal(w, sc, map[*ssa.Function]bool{}) {
+					r.bad("C09.rmw", f, "write to the atom besides the versioned install: "+sc.Name(), in.Pos(), "swap! also writes the atom through "+sc.Name()+", without comparing versions: an update another thread completed meanwhile is overwritten (for instance by writing the old value back after a failed update)")
+				}
+			}
+		}
+	}
 	// a retried attempt is independent of the failed ones: nothing is carried around the loop, nothing allocated
 	// before the loop is written inside it, and the argument list handed to the update function is built per attempt
 	var carried []string
@@ -300,6 +391,9 @@ func checkRMW(w *World, r *Report, e *Engine) {
 			}
 		}
 		ri, isInstr := root.(ssa.Instruction)
+		if callA != nil && isInstr && ri.Parent() == swap {
+			blocks[ri.Block()] = true // allocated by the attempt function: anew on every call
+		}
 		r.check(root != nil && isInstr && blocks[ri.Block()], "C09.rmw", swap, "argument list of the update function", apply.Pos(), "built anew in every attempt", "the argument list handed to the update function is not allocated inside the attempt: it carries contents from one attempt to the next (and a function keeping its rest arguments sees them change)")
 	}
 }
@@ -670,6 +764,7 @@ func checkC10(w *World, r *Report) {
 	singleOutcomeRule(w, r, e, "C10.single-outcome")
 	doneFlagRule(w, r, e, "C10.done-flag")
 	futureWritersRule(w, r, e, "C10.readers")
+	cancelAnswerRule(w, r, e, "C10.cancel-answer")
 	// redeposit
 	nrecv := 0
 	for _, b := range deref.Blocks {
@@ -1497,4 +1592,67 @@ func futureWritersRule(w *World, r *Report, e *Engine, rule string) {
 		r.check(why == "", rule, fn, "state changes made by a reading method", fn.Pos(), "none", fn.Name()+" changes the future's state ("+why+"): one reader changes what every other reader of the future sees (cancelled / done without future-cancel)")
 	}
 	r.floor(rule, "methods of Future other than Cancel and the body", n, 3)
+}
+
+
+// writesAtomVal: fn (or a function of its package it calls) stores Atom.Val.
+func writesAtomVal(w *World, fn *ssa.Function, seen map[*ssa.Function]bool) bool {
+	if seen[fn] {
+		return false
+	}
+	seen[fn] = true
+	for _, b := range fn.Blocks {
+		for _, in := range b.Instrs {
+			switch x := in.(type) {
+			case *ssa.Store:
+				if fa, ok := x.Addr.(*ssa.FieldAddr); ok && fieldName(fa.X.Type(), fa.Field) == "Val" {
+					if _, name, ok := w.namedStruct(derefType(fa.X.Type())); ok && name == "Atom" {
+						return true
+					}
+				}
+			case ssa.CallInstruction:
+				if sc := x.Common().StaticCallee(); sc != nil && sc.Pkg == fn.Pkg && writesAtomVal(w, sc, seen) {
+					return true
+				}
+			}
+		}
+	}
+	return false
+}
+
+// cancelAnswerRule: future-cancel answers what Cancel answers.
+func cancelAnswerRule(w *World, r *Report, e *Engine, rule string) {
+	r.rule(rule, "every builtin that cancels a future returns the result of Cancel itself on every path, with no test of its own in front (Cancel decides under the lock; a second look at the flags outside it gives answers that contradict future-cancelled?)")
+	cancel := w.Fn("lib/concurrent", "(*Future).Cancel")
+	if cancel == nil {
+		r.undecided(rule, nil, "(*Future).Cancel", token.NoPos, "method no longer resolves")
+		return
+	}
+	n := 0
+	for _, fn := range w.Funcs {
+		if isTestFunc(w, fn) || !strings.HasPrefix(fnPkgPath(fn), modPath) || fn == cancel {
+			continue
+		}
+		calls := staticCallsTo(fn, cancel)
+		if len(calls) == 0 {
+			continue
+		}
+		for _, rt := range errorReturns(fn) {
+			ret := rt[0].(*ssa.Return)
+			v, _ := rt[1].(ssa.Value)
+			ev, _ := rt[2].(ssa.Value)
+			if v == nil || (ev != nil && !isNilConst(ev)) {
+				continue
+			}
+			n++
+			okV := false
+			for _, c := range calls {
+				if unboxed(v) == ssa.Value(c) {
+					okV = true
+				}
+			}
+			r.check(okV, rule, fn, "answer of a cancelling builtin", ret.Pos(), "the result of Cancel", "a path answers without asking Cancel ("+describeVal(e, v, 0)+"): the answer is taken from flags read outside Cancel's critical section")
+		}
+	}
+	r.floor(rule, "success returns of builtins that call Cancel", n, 1)
 }
